@@ -102,3 +102,139 @@ def pfx_construct(prefixes, addpath=False):
     if st == 'raise':
         return {'raise': True}
     return {'hex': hx(v)}
+
+
+# ---------------------------------------------------------------- OPEN / NOTIFICATION / KEEPALIVE / ROUTE-REFRESH
+import ast as _ast  # noqa: E402
+
+from yabgp.message.open import Open  # noqa: E402
+from yabgp.message.notification import Notification  # noqa: E402
+from yabgp.message.keepalive import KeepAlive  # noqa: E402
+from yabgp.message.route_refresh import RouteRefresh  # noqa: E402
+from yabgp.common import constants as _c  # noqa: E402
+from yabgp.common import exception as _ex  # noqa: E402
+import netaddr as _netaddr  # noqa: E402
+
+
+def _inv(d):
+    out = {}
+    for k, v in d.items():
+        out[v] = k
+    return out
+
+
+def canon_capa(d):
+    """capa_dict of Open.parse in the numeric shape the model prints"""
+    afi_safi_inv = _inv(_c.AFI_SAFI_DICT)
+    act_inv = _inv(_c.ADD_PATH_ACT_DICT)
+    out = {}
+    unknown = []
+    for k, v in d.items():
+        if k in ('four_bytes_as', 'route_refresh', 'cisco_route_refresh', 'graceful_restart', 'cisco_multi_session',
+                 'enhanced_route_refresh'):
+            if v:
+                out[k] = True
+        elif k == 'afi_safi':
+            out[k] = [list(x) for x in v]
+        elif k == 'add_path':
+            out[k] = [list(afi_safi_inv[e['afi_safi']]) + [act_inv[e['send/receive']]] for e in v]
+        elif k == 'LLGR':
+            out[k] = [list(e['afi_safi']) + [e['time']] for e in v]
+        elif k == 'ext_nexthop':
+            out[k] = [list(e['afi_safi']) + [e['nexthop_afi']] for e in v]
+        else:
+            unknown.append([int(k), hx(_ast.literal_eval(v))])
+    if unknown:
+        out['unknown'] = sorted(unknown)
+    return out
+
+
+def _oerr(e):
+    if isinstance(e, _ex.MessageHeaderError):
+        return {'err': 'hdr', 'sub': e.sub_error}
+    if isinstance(e, _ex.OpenMessageError):
+        return {'err': 'open', 'sub': e.sub_error}
+    return {'err': 'other'}
+
+
+def open_parse(body):
+    o = Open()
+    st, v = with_budget(BUDGET, o.parse, bytes(body))
+    if st == 'hang':
+        return {'hang': True}
+    if st == 'raise':
+        return _oerr(v)
+    if v is None:
+        return {'none': True}
+    return {'ok': {'version': v['version'], 'asn': v['asn'], 'hold_time': v['hold_time'], 'bgp_id': v['bgp_id'],
+                   'capabilities': canon_capa(v['capabilities'])}}
+
+
+ADDPATH_STR = {1: 'ipv4_receive', 2: 'ipv4_send', 3: 'ipv4_both'}
+
+
+def py_local_caps(c):
+    """model-shaped local capability dict -> the dict yabgp keeps in running_config['capability']['local']"""
+    d = {}
+    if c.get('afi_safi') is not None:
+        d['afi_safi'] = [tuple(x) for x in c['afi_safi']]
+    for k in ('cisco_route_refresh', 'route_refresh', 'four_bytes_as', 'enhanced_route_refresh', 'graceful_restart',
+              'cisco_multi_session'):
+        if k in c:
+            d[k] = c[k]
+    if c.get('ext_nexthop') is not None:
+        d['ext_nexthop'] = [{'afi_safi': [a, s], 'nexthop_afi': n} for a, s, n in c['ext_nexthop']]
+    if c.get('add_path') is not None:
+        d['add_path'] = ADDPATH_STR.get(c['add_path'], 'bogus')
+    return d
+
+
+def open_construct(version, asn, hold_time, bgp_id, caps):
+    o = Open(version=version, asn=asn, hold_time=hold_time, bgp_id=bgp_id)
+    st, v = with_budget(BUDGET, o.construct, py_local_caps(caps))
+    if st == 'hang':
+        return {'hang': True}
+    if st == 'raise' or v is None:
+        return {'raise': True}
+    return {'hex': hx(v)}
+
+
+def notif_parse(body):
+    st, v = with_budget(BUDGET, Notification().parse, bytes(body))
+    if st != 'ok':
+        return {'hang': True} if st == 'hang' else {'raise': True}
+    return {'ok': [v[0], v[1], hx(v[2])]}
+
+
+def notif_construct(error, sub, data):
+    st, v = with_budget(BUDGET, Notification().construct, error, sub, bytes(data))
+    if st != 'ok' or v is None:
+        return {'hang': True} if st == 'hang' else {'raise': True}
+    return {'hex': hx(v)}
+
+
+def keepalive_parse(body):
+    st, v = with_budget(BUDGET, KeepAlive().parse, bytes(body))
+    if st == 'hang':
+        return {'hang': True}
+    if st == 'raise':
+        return _oerr(v)
+    return {'ok': None}
+
+
+def keepalive_construct():
+    return {'hex': hx(KeepAlive().construct())}
+
+
+def rr_parse(body):
+    st, v = with_budget(BUDGET, RouteRefresh().parse, bytes(body))
+    if st != 'ok':
+        return {'hang': True} if st == 'hang' else {'raise': True}
+    return {'ok': list(v)}
+
+
+def rr_construct(ty, afi, res, safi):
+    st, v = with_budget(BUDGET, RouteRefresh(afi, safi, res).construct, ty)
+    if st != 'ok' or v is None:
+        return {'hang': True} if st == 'hang' else {'raise': True}
+    return {'hex': hx(v)}
